@@ -191,6 +191,31 @@ def window(R, rep):
            f"a candidate acquisition is considered exactly for day differences in [{lo}, {hi}] (from {used})" if ok else
            f"a candidate acquisition is considered for day differences in [{lo if lo > -INF else '-inf'}, {hi if hi < INF else '+inf'}] — the 30-day rule requires [1, 30] "
            f"(D+30 in, D+31 and ≤ D out); dominating conditions: {used}", b.loc(t["sp"]), key="R3:window:interval")
+    # every OTHER effect of a candidate line (a SPLIT/UNSPLIT rescaling the look-ahead, anything handed to a helper) also lies
+    # strictly after the sale's date: the loop starts at the line after the sale, so lines of the sale's own date are visited
+    # or not depending on where they stand in the file — an effect applied before the `days > 0` test makes the result depend on
+    # line order (seeded change C06-s7)
+    n_eff = 0
+    for j, u in b.calls():
+        hb = F.bodies.get(u["callee"])
+        if hb is None or hb.crate != b.crate or not b.in_loop(j) or hb.id.startswith("cgt_core::matcher::acquisition_ledger::") or j == leg_bb:
+            continue
+        args = [tb.operand(a) for a in u["args"]]
+        cand = [a for a in args if "next(" in show(a, 0) and (any(isinstance(x, tuple) and len(x) == 3 and x[0] == "field" and x[2] in ("operation", "1", "date")
+                                                                   for x in subterms(a)) or (isinstance(a, tuple) and a and a[0] == "some"))]
+        if not cand:
+            continue
+        elo = -INF
+        for cond, val, s_ in guards_of(b, tb, j):
+            iv = interval_of(cond, truth(val), wterm)
+            if iv is not None:
+                elo = max(elo, iv[0])
+        n_eff += 1
+        okk = elo >= 1
+        rep.ob("R3", f"window:effect:{hb.short.split('::')[-1]}@{j}", okk, "the candidate reaches this helper only for day differences ≥ 1" if okk else
+               f"`{hb.short.split('::')[-1]}` receives candidates with day difference ≥ {elo if elo > -INF else '-inf'}: lines dated on the sale's own day take effect "
+               "or not depending on whether they are written after or before the sale", b.loc(u["sp"]), key=f"R3:window:effect-before-window:{hb.short.split('::')[-1]}")
+    rep.count("lookahead_candidate_effects", n_eff)
     # ticker guard dominates too (shared with C09)
     # R4 forwards from the sale index
     nexts = [(j, u) for j, u in b.calls() if parse_callee(u["callee"])[2] == "next" and b.in_loop(j)]
@@ -297,6 +322,10 @@ def run(ctx, rep):
     window(R, rep)
     labels(R, rep)
     reservations(R, rep)
+    # the legs cover what was actually bought and sold: no line is dropped before matching (shared with C02-R10; `dedup` of two
+    # identical same-day fills turns a same-day match of 80 into 50 + 30 from the pool — seeded change C01-s7)
+    import rules.c02 as c02_
+    c02_.every_line_counts(R, rep, "R10")
     # "rescaled across intervening splits": the look-ahead's ratio accumulator and the unit discipline (shared with C10-R2/R3)
     import rules.c10 as c10
     from core import Report
